@@ -237,6 +237,10 @@ fn plans_c20(tier: Tier) -> Vec<Plan> {
         c.prelude.push(Act::Sub { c: 2, f: 0, qos: 1 });
         c.prelude.push(Act::Sub { c: 3, f: 0, qos: 2 });
         v.push(Plan { cfg: c.clone(), depth_by_devs: vec![if q { 3 } else { 5 }] });
+        // the MQTT 5 subscriber subscribed with a subscription identifier
+        let mut si = c.clone();
+        si.variant = 1;
+        v.push(Plan { cfg: si, depth_by_devs: vec![if q { 2 } else { 4 }] });
         if !q {
             // broker-side topic aliases towards the v5 subscriber, retained replays
             let mut d = c.clone();
